@@ -66,7 +66,7 @@ func c05StartRunner(cfg verifh.Cfg) (func(op []string) string, func()) {
 		g.ch <- pan
 		<-g.done
 		// the slot is released by the deferred clean-up after the task body ended
-		if !c5.WaitUntil(2*time.Second, func() bool { return len(rp.limitChan) < before }) {
+		if !c5.WaitUntil(5*time.Second, func() bool { return len(rp.limitChan) < before }) {
 			return "leaked"
 		}
 		return "ok"
